@@ -40,23 +40,28 @@ Example C01_whatwg_cross_check :
 Proof. split; [exact whatwg_cross_check|reflexivity]. Qed.
 Print Assumptions C01_whatwg_cross_check.
 
-(* Stage B: the refinement THEOREM for the text states (TokIR/WhatwgRefine.v generic part, Inst/InstWhatwgRefine.v on the
-   regenerated table).  Simulation relation by state: state correspondence, the live variables (temporary buffer, the end
-   tag under construction with "appropriate end tag", last start tag), and the LOGICAL INPUT of the machine - the reconsumed
-   character followed by the unread queue with CR LF / CR normalised as the interpreter does it inside get_char with its
-   ignore_lf flag - equal to the specification's preprocessed remaining input.  One interpreter step = one to three
-   specification steps; end() = the specification's end-of-file clauses; discharged for 28 states by symbolic execution of
-   both machines on a machine with all fields variables and a character that is a variable, case analysis following the tests
-   of the arm.  Observation ([flat_i] / [flat_s]): parse errors dropped, character tokens compared character by character
-   (U+0000 as its own token, as html5ever delivers it), every other token exactly.
-   _partial - covered: Data, PLAINTEXT, RCDATA, RAWTEXT, script data and its 17 escape / less-than-sign / end-tag-open /
-   end-tag-name states.  NOT covered yet (a run that reaches one of them is outside the theorem: the visiting hypothesis
-   fails): tag open, end tag open, tag name, the attribute states, self-closing start tag (stage C); comments, markup
-   declaration open, DOCTYPE, CDATA sections (stage D); character references (stage E).  Sink: no Script answer, one feed call. *)
+(* Stages B and C1: the refinement THEOREM for the text states and for tags without attributes (TokIR/WhatwgRefine.v generic
+   part, Inst/InstWhatwgRefine.v on the regenerated table).  Simulation relation by state: state correspondence, the live
+   variables (temporary buffer, the tag under construction with "appropriate end tag", last start tag), and the LOGICAL INPUT
+   of the machine - the reconsumed character followed by the unread queue with CR LF / CR normalised as the interpreter does
+   it inside get_char with its ignore_lf flag - equal to the specification's preprocessed remaining input.  One interpreter
+   step = one to three specification steps; end() = the specification's end-of-file clauses; emitting a start tag switches
+   both tokenizers as the sink answers (PLAINTEXT / RCDATA / RAWTEXT / script data ...).  Discharged for 32 states by symbolic
+   execution of both machines on a machine with all fields variables and a character that is a variable, case analysis
+   following the tests of the arm.  Observation ([flat_i] / [flat_s]): parse errors dropped, character tokens compared
+   character by character (U+0000 as its own token, as html5ever delivers it), every other token exactly.
+   _partial - COVERED (32): Data, PLAINTEXT, RCDATA, RAWTEXT, script data and its 17 less-than-sign / end-tag-open /
+   end-tag-name / escape states, tag open, end tag open, tag name, self-closing start tag.
+   NOT covered (a run that reaches one of them is outside the theorem - the visiting hypothesis fails): before attribute name,
+   attribute name, after attribute name, before attribute value, attribute value (double-quoted / single-quoted / unquoted),
+   after attribute value (quoted); bogus comment, markup declaration open, the 10 comment states; the 16 DOCTYPE states; the
+   3 CDATA section states; the character reference states.  Sink: no Script and no EncodingIndicator answer, one feed call. *)
 From HV Require Import TokIR.WhatwgRefine HtmlSer.SerLex CharRef.CrInterpInst Inst.InstWhatwgRefine.
 
-Theorem C01_refines_whatwg_text_states_partial :
-  forall simd ent c1 sk env, e_script env = None -> (forall n, lookup_resp n (sk_resp sk) <> Some RespScript) ->
+Theorem C01_refines_whatwg_text_and_attributeless_tags_partial :
+  forall simd ent c1 sk env, e_script env = None ->
+  (forall n, lookup_resp n (sk_resp sk) <> Some RespScript) -> (forall n, lookup_resp n (sk_resp sk) <> Some RespEncoding) ->
+  (forall n, lookup_sw n (e_switches env) = sw_of_resp (lookup_resp n (sk_resp sk))) ->
   forall s0 w last text fuel m2 m3,
   covered s0 = true -> wstate_of_start s0 = Some w ->
   let m1 := RecordUpdate.RecordSet.set mq (fun q => q ++ text) (mkmach (init_cfg s0 last false) ([] : list N) [] 0%N) in
@@ -66,9 +71,9 @@ Theorem C01_refines_whatwg_text_states_partial :
   drive_flat html_flavour true html_table simd ent c1 sk fuel [] [text] (mkmach (init_cfg s0 last false) [] [] 0%N) [] = (m3, [SSuspend; SSuspend]) /\
   exists fs cfF, wrun fs env (winit w last) (preprocess text) = Some cfF /\ flat_i (mout m3) = flat_s (wout cfF).
 Proof. exact html_refines_whatwg_partial. Qed.
-Print Assumptions C01_refines_whatwg_text_states_partial.
+Print Assumptions C01_refines_whatwg_text_and_attributeless_tags_partial.
 
-Theorem C01_covered_states : forallb covered covered_states = true /\ length covered_states = 28%nat.
+Theorem C01_covered_states : forallb covered covered_states = true /\ length covered_states = 32%nat.
 Proof. exact covered_states_ok. Qed.
 Print Assumptions C01_covered_states.
 
